@@ -421,4 +421,87 @@ theorem reported_checksum_flush {cfg : Cfg} (wf : cfg.WF) {s : Sys} {g : Ghost} 
     rw [h2.2.1.2.2.crc]
     rfl
 
+/-! ## non-vacuity and the excluded histories -/
+
+/-- decidable form of `Legal` -/
+def legalb (cfg : Cfg) (s : Sys) (g : Ghost) : Op → Bool
+  | .endflash => decide (0 < g.owed)
+  | .ctrl v => !(v.head? = some 3 && (step cfg s (.ctrl v)).2.res = some 0) || (decide (g.owed = 0) && !s.q2)
+  | _ => true
+
+theorem legalb_legal {cfg : Cfg} {s : Sys} {g : Ghost} {op : Op} (h : legalb cfg s g op = true) : Legal cfg s g op := by
+  cases op with
+  | endflash => show 0 < g.owed; simpa [legalb] using h
+  | ctrl v =>
+    intro rest hv hres
+    subst hv
+    simp [legalb, hres] at h
+    exact h
+  | data v => trivial
+  | output => trivial
+
+/-- A legal history (white list [0x1000,0x1040) ∪ [0x2000,0x2020), page 16): Start Flash at 0x100e,
+    18 data bytes (page 0x1000 = 14 bytes read back + 2 client bytes and page 0x1010 = 16 client
+    bytes are flashed, both buffers busy), `end_flash` for the first page and its progress
+    notification, 2 more data bytes. The next Flush flashes page 0x1020 with those 2 bytes. -/
+example : ∃ s g, FlashReach cfg1 s g ∧ Legal cfg1 s g (.ctrl [5]) ∧ g.recv.length = 20 ∧ g.owed = 1 ∧
+    flashes (step cfg1 s (.ctrl [5])).2.effs =
+      [.startFlash 0x1020 16 ([19, 20] ++ memRange 0x1022 14)] := by
+  have r1 := FlashReach.step (cfg := cfg1) (.ctrl [3, 0x0e, 0x10, 0, 0, 0, 0, 0, 0]) .init (legalb_legal (by decide +kernel))
+  have r2 := FlashReach.step .output r1 trivial
+  have r3 := FlashReach.step (.data [1, 2, 3, 4, 5, 6, 7, 8, 9, 10, 11, 12, 13, 14, 15, 16, 17, 18]) r2 trivial
+  have r4 := FlashReach.step .endflash r3 (legalb_legal (by decide +kernel))
+  have r5 := FlashReach.step .output r4 trivial
+  have r6 := FlashReach.step (.data [19, 20]) r5 trivial
+  exact ⟨_, _, r6, legalb_legal (by decide +kernel), by decide +kernel, by decide +kernel, by decide +kernel⟩
+
+/-- a 20 byte write that needs a third page buffer is answered `buffer_overrun_attempt`; 18 bytes are taken -/
+example : (step cfg1 (step cfg1 (step cfg1 Sys.init (.ctrl [3, 0x0e, 0x10, 0, 0, 0, 0, 0, 0])).1 .output).1
+      (.data [1, 2, 3, 4, 5, 6, 7, 8, 9, 10, 11, 12, 13, 14, 15, 16, 17, 18, 19, 20])).2.res = some bufferOverrunAttempt ∧
+    taken cfg1 (step cfg1 (step cfg1 Sys.init (.ctrl [3, 0x0e, 0x10, 0, 0, 0, 0, 0, 0])).1 .output).1
+      (.data [1, 2, 3, 4, 5, 6, 7, 8, 9, 10, 11, 12, 13, 14, 15, 16, 17, 18, 19, 20]) = 18 := by
+  decide +kernel
+
+/-- the statement with the handler contract (precondition 1) only … -/
+def LegalU (g : Ghost) : Op → Prop
+  | .endflash => 0 < g.owed
+  | _ => True
+
+inductive FlashReachU (cfg : Cfg) : Sys → Ghost → Prop where
+  | init : FlashReachU cfg Sys.init Ghost.init
+  | step {s g} (op : Op) : FlashReachU cfg s g → LegalU g op →
+      FlashReachU cfg (step cfg s op).1 (g.step cfg op (step cfg s op).2 (taken cfg s op)).1
+
+def flash_layout_unrestricted : Prop :=
+  ∀ cfg : Cfg, cfg.WF → ∀ s g, FlashReachU cfg s g → ∀ op, LegalU g op →
+    flashes (step cfg s op).2.effs = (g.step cfg op (step cfg s op).2 (taken cfg s op)).2
+
+/-- … fails. Start Flash 0x1000, 16 data bytes (page 0x1000 is being flashed), Stop Flash,
+    Start Flash 0x1010, 3 data bytes, the handler's `end_flash` for page 0x1000, two
+    `l2cap_output`s (the second one sends the progress notification and frees the buffer that holds
+    the 3 bytes), 13 more data bytes: page 0x1010 is flashed with the old memory content in its
+    first 3 bytes instead of the client's bytes. -/
+def restartOps : List Op :=
+  [.ctrl [3, 0x00, 0x10, 0, 0, 0, 0, 0, 0],
+   .data [1, 2, 3, 4, 5, 6, 7, 8, 9, 10, 11, 12, 13, 14, 15, 16],
+   .ctrl [4],
+   .ctrl [3, 0x10, 0x10, 0, 0, 0, 0, 0, 0],
+   .data [1, 2, 3],
+   .endflash, .output, .output]
+
+theorem flash_layout_unrestricted_witness : ¬ flash_layout_unrestricted := by
+  intro h
+  have r0 : FlashReachU cfg1 _ _ := .init
+  have r1 := FlashReachU.step (.ctrl [3, 0x00, 0x10, 0, 0, 0, 0, 0, 0]) r0 trivial
+  have r2 := FlashReachU.step (.data [1, 2, 3, 4, 5, 6, 7, 8, 9, 10, 11, 12, 13, 14, 15, 16]) r1 trivial
+  have r3 := FlashReachU.step (.ctrl [4]) r2 trivial
+  have r4 := FlashReachU.step (.ctrl [3, 0x10, 0x10, 0, 0, 0, 0, 0, 0]) r3 trivial
+  have r5 := FlashReachU.step (.data [1, 2, 3]) r4 trivial
+  have r6 := FlashReachU.step .endflash r5 (by show 0 < _; decide +kernel)
+  have r7 := FlashReachU.step .output r6 trivial
+  have r8 := FlashReachU.step .output r7 trivial
+  have := h cfg1 cfg1_wf _ _ r8 (.data [4, 5, 6, 7, 8, 9, 10, 11, 12, 13, 14, 15, 16]) trivial
+  revert this
+  decide +kernel
+
 end BluetoeModel.Bootloader
